@@ -356,6 +356,51 @@ def run(ctx):
                "finishing must be won by the compare-exchange that seals the callback slot; only the winner sets the error "
                "code and wakes waiters, in that order")
 
+    # ---------------------------------------------------------------- R7 a dependency is ready only if it is established (after seed C05-6)
+    # value() / the select processors hand the target to the vertex whenever _ready is set: a conditional dependency whose
+    # condition came out false must never be marked ready, whatever the state of its target. Every store to _ready that
+    # is not the constant false is either a conjunction containing established() / check_established() or sits behind
+    # the true edge of one of them.
+    n7 = 0
+    for fn in fns_of(fb, "GraphDependency"):
+        if fn.kind in ("ctor", "copy_ctor", "move_ctor") or fn.name == "swap":
+            continue
+        ig = IG(fn, inline=nin)
+        live = ig.live_nodes()
+        est = [n for n in ig.ev_nodes() if n.id in live and n.ev["e"] == "call" and n.ev.get("name") in ("established", "check_established") and
+               isinstance(strip_cast(n.ev.get("this", {})), dict) and strip_cast(n.ev.get("this", {})).get("k") == "this"]
+        est_ids = set(n.id for n in est)
+
+        def conjuncts(d):
+            d = strip_cast(d)
+            if isinstance(d, dict) and d.get("k") == "b" and d.get("op") == "&&":
+                return conjuncts(d.get("l")) + conjuncts(d.get("r"))
+            return [d]
+        for n in ig.ev_nodes():
+            if n.id not in live or n.ev["e"] != "asg" or n.ev.get("op") != "=":
+                continue
+            lhs = strip_cast(n.ev.get("lhs"))
+            if not (isinstance(lhs, dict) and lhs.get("k") == "f" and lhs.get("n") == "_ready" and strip_cast(lhs.get("b", {})).get("k") == "this"):
+                continue
+            rhs = n.ev.get("rhs")
+            if const_val(rhs) == 0:
+                continue
+            n7 += 1
+            in_rhs = False
+            for c in conjuncts(ig.resolve(rhs, n.frame)):
+                cn = ig.ev_of(c) if isinstance(c, dict) else None
+                if cn is not None and cn.id in est_ids:
+                    in_rhs = True
+                if isinstance(c, dict) and c.get("k") == "f" and c.get("n") == "_established":
+                    in_rhs = True
+            te = L.result_edges(ig, est_ids, True, live) if est_ids else []
+            behind = bool(te) and n.id not in ig.reach([ig.entry], removed_edges=te)
+            ctx.ob("C05.R7", "%s@%s" % (L.short(fn), n.line), in_rhs or behind, n.where,
+                   "GraphDependency::_ready is set without consulting whether the dependency is established: a conditional dependency "
+                   "whose condition is false reports ready as soon as its target happens to be published, and value() / select hand "
+                   "the vertex an input sequential evaluation would not give it", site="GraphDependency::%s@ready-needs-established" % fn.name)
+    ctx.floor("C05.R7", n7, 3, "non-constant stores to GraphDependency::_ready")
+
     # ---------------------------------------------------------------- R6 reset completeness
     R6C_CONDITIONAL = set()
     CONFIG = re.compile(r"^(set_.*|declare_.*|source|target|condition|data_num|vertex_num|producer|add_successor|executer|"
